@@ -112,8 +112,8 @@ def nonfinite_case(rec, seedt):
     zero = bad.copy()
     zero[~np.isfinite(zero)] = 0.0
     kw, single = common_kw(rng, N)
-    layout = str(rng.choice(["c64", "c64", "Nx2", "list", "f32"])) if cross else \
-        str(rng.choice(["c64", "c64", "f32", "list"]))
+    layout = str(rng.choice(["c64", "c64", "Nx2", "list", "f32", "object"])) if cross else \
+        str(rng.choice(["c64", "c64", "f32", "list", "object"]))
     if N == 2 and layout == "Nx2":
         layout = "c64"  # 2x2 is documented as rows = channels; there is no Nx2 reading of it
     desc = {"kind": "nonfinite", "seed": list(seedt), "N": N, "cross": cross, "where": where,
@@ -127,6 +127,10 @@ def nonfinite_case(rec, seedt):
     elif layout == "f32":
         arg = bad.astype(np.float32)
         zero = zero.astype(np.float32).astype(np.float64)
+    elif layout == "object":
+        # object-dtype container (e.g. parsed from a table with missing values): NaN -> None
+        arg = bad.astype(object)
+        arg[np.isnan(bad)] = None
     else:
         arg = bad
     fp = guard.fingerprint(arg) if isinstance(arg, np.ndarray) else None
